@@ -709,6 +709,79 @@ fn check_rewhiten_lowrank(d: usize, p: &mut Partial) {
     }
 }
 
+/// the low-rank transformation in its gradient-initialised state (after update_from_grad, before
+/// the first window update: the state every low-rank chain starts in): forward map, inverse map,
+/// gradient pull-back and energies are mutually consistent along a few leapfrog steps
+fn check_gradinit_lowrank(d: usize, kind: KineticEnergyKind, p: &mut Partial) {
+    if d < 2 && kind == KineticEnergyKind::Microcanonical {
+        return;
+    }
+    let target = Target::DiagNormal { mu: (0..d).map(|i| 0.2 * i as f64 - 0.3).collect(), sigma: (0..d).map(|i| 0.4 + 0.7 * i as f64).collect() };
+    let (mut math, spy) = SpyMath::new(Dens::new(target.clone()));
+    let mut rng = ChaCha8Rng::seed_from_u64(5);
+    let mut mm = LowRankMassMatrix::new(&mut math, LowRankSettings::default());
+    let pos0: Vec<f64> = (0..d).map(|i| 0.9 - 0.35 * i as f64).collect();
+    let mut g0 = vec![0.0; d];
+    target.logp(&pos0, &mut g0);
+    mm.update_from_grad(&mut math, &col(&pos0), &col(&g0), 1.0, (1e-20, 1e20));
+    let mut h = TransformedHamiltonian::new(&mut math, mm, kind);
+    *h.step_size_mut() = 0.2;
+    p.evaluations += 1;
+    let key = format!("lowrank-gradinit/d{d}/{kind:?}");
+    let replay = json!({"d": d, "kind": format!("{kind:?}")});
+    let Ok(mut st) = h.init_state(&mut math, &pos0) else { return };
+    spy.borrow_mut().gaussian_script.push_back((0..d).map(|i| 0.6 - 0.25 * i as f64).collect());
+    if h.initialize_trajectory(&mut math, &mut st, true, &mut rng).is_err() {
+        return;
+    }
+    let mut cur = st.clone();
+    for stepno in 0..3 {
+        let e0 = cur.point().initial_energy();
+        let next = match h.leapfrog(&mut math, &cur, Direction::Forward, 1.0, e0, f64::INFINITY, &mut NoCollector) {
+            LeapfrogResult::Ok(n) => n,
+            _ => {
+                p.violation(format!("C02/leapfrog-not-ok/{key}"), format!("step {stepno}"), replay);
+                return;
+            }
+        };
+        // inverse map and pull-back of the transformation object itself applied to the new state
+        let x = math.box_array(next.point().position()).to_vec();
+        let mut g = vec![0.0; d];
+        target.logp(&x, &mut g);
+        let mut yv = math.new_array();
+        let mut gyv = math.new_array();
+        use nuts_rs::verif::Transformation;
+        if h.transformation_mut().inv_transform_normalize(&mut math, &col(&x), &col(&g), &mut yv, &mut gyv).is_err() {
+            p.violation(format!("C02/inverse-map-failed/{key}"), format!("step {stepno}"), replay);
+            return;
+        }
+        let y = nv::point_transformed_position(next.point(), &mut math).to_vec();
+        let gy = nv::point_transformed_gradient(next.point(), &mut math).to_vec();
+        let y2 = math.box_array(&yv).to_vec();
+        let gy2 = math.box_array(&gyv).to_vec();
+        if max_rel(&y, &y2) > 1e-9 || max_rel(&gy, &gy2) > 1e-9 {
+            p.violation(
+                format!("C02/forward-and-inverse-map-disagree/{key}"),
+                format!("step {stepno}: whitened position of the state {:?}, inverse map of its position {:?}", &y[..d.min(3)], &y2[..d.min(3)]),
+                replay,
+            );
+            return;
+        }
+        // stepping back returns the previous state
+        let e1 = next.point().initial_energy();
+        if let LeapfrogResult::Ok(back) = h.leapfrog(&mut math, &next, Direction::Backward, 1.0, e1, f64::INFINITY, &mut NoCollector) {
+            let xb = math.box_array(back.point().position()).to_vec();
+            let xc = math.box_array(cur.point().position()).to_vec();
+            if max_rel(&xb, &xc) > 1e-9 {
+                p.violation(format!("C02/not-time-reversible/{key}"), format!("step {stepno}: forward+backward returns {:?} instead of {:?}", &xb[..d.min(3)], &xc[..d.min(3)]), replay);
+                return;
+            }
+        }
+        cur = next;
+    }
+    p.class(format!("lowrank-gradinit:{kind:?}"));
+}
+
 pub fn run(tier: Tier, _replay: Option<String>) -> i32 {
     let mut report = Report::new(
         "C02",
@@ -781,6 +854,9 @@ pub fn run(tier: Tier, _replay: Option<String>) -> i32 {
         }
         check_rewhiten(d, &mut p);
         check_rewhiten_lowrank(d, &mut p);
+        for kind in [KineticEnergyKind::Euclidean, KineticEnergyKind::ExactNormal, KineticEnergyKind::Microcanonical] {
+            check_gradinit_lowrank(d, kind, &mut p);
+        }
     }
     report.merge(p);
     report.finish()
